@@ -391,8 +391,11 @@ static const double TOL[] = { 0.0, -0.0, D_DEN, DBL_MIN, DBL_EPSILON / 2, DBL_EP
 static const size_t NDV = sizeof(DV) / sizeof(DV[0]), NTOL = sizeof(TOL) / sizeof(TOL[0]);
 
 // The property's rule, decided exactly. Returns EXP_PASS / EXP_FAIL, or EXP_UNJUDGED where the statement is silent
-// (negative or NaN tolerance; infinite distance against an infinite tolerance) or where the exact real answer hinges on
-// a rounding error of the subtraction (|a-b| rounds to exactly tol but is not exactly tol). cls names the input class.
+// (negative or NaN tolerance) or where the exact real answer hinges on a rounding error of the subtraction (|a-b| rounds
+// to exactly tol but is not exactly tol). cls names the input class.
+// Infinite distance (opposite infinities, or an infinity against a finite value) is judged by the statement as written:
+// the operands "differ by" +inf, which is "no more than" a tolerance of +inf and more than every finite tolerance
+// (extended-real ordering, inf <= inf), so an infinite tolerance makes every pair of non-NaN operands equal.
 static int doubles_oracle(double a, double b, double tol, std::string& cls) {
     if (std::isnan(a) || std::isnan(b)) { cls = "nan-operand"; return EXP_FAIL; }           // NaN equals nothing
     if (std::isnan(tol)) { cls = "nan-tolerance"; return EXP_UNJUDGED; }
@@ -400,7 +403,7 @@ static int doubles_oracle(double a, double b, double tol, std::string& cls) {
     if (a == b) { cls = std::isinf(a) ? "same-infinity" : (std::signbit(a) != std::signbit(b) ? "signed-zeros" : "same-value"); return EXP_PASS; }
     if (std::isinf(a) || std::isinf(b)) {
         cls = (std::isinf(a) && std::isinf(b)) ? "opposite-infinities" : "infinite-vs-finite";
-        if (std::isinf(tol)) { cls += ":infinite-tolerance"; return EXP_UNJUDGED; }
+        if (std::isinf(tol)) { cls += ":infinite-tolerance"; return EXP_PASS; }              // distance inf <= tolerance inf
         return EXP_FAIL;                                                                     // infinitely far apart, finite tolerance
     }
     if (std::isinf(tol)) { cls = "finite:infinite-tolerance"; return EXP_PASS; }
@@ -443,6 +446,39 @@ static void sec_doubles_lattice(vf::Ctx& c) {
         // TEXT variants get a tolerance chosen by the pair index so that all tolerances are visited
         run_double_case(c, DCHK[which[i]], a, b, TOL[(c.idx * 7 + 3) % NTOL]);
     }
+}
+// Every double CLASS against every tolerance CLASS through every tolerance-taking check (the lattice above runs the _TEXT
+// variants with one tolerance per operand pair only): operands {+-0, +-subnormal, +-1, +-DBL_MAX, +-inf, NaN} squared x
+// tolerances {0, subnormal, 1, DBL_MAX, +inf, NaN, -1, -inf} x the 5 tolerance checks, complete cross product. Besides the
+// check's verdict the public predicate function doubles_equal() is called on the same triple; its answer is recorded and
+// compared with the check's verdict as evidence (the property speaks about checks, so this is counted, not judged).
+static const double SDV[] = { 0.0, -0.0, D_DEN, -D_DEN, 1.0, -1.0, DBL_MAX, -DBL_MAX, D_INF, -D_INF, D_NAN };
+static const double STOL[] = { 0.0, D_DEN, 1.0, DBL_MAX, D_INF, D_NAN, -1.0, -D_INF };
+static const int SDCHK[] = { 0, 1, 2, 3, 4 };
+static const size_t NSDV = sizeof(SDV) / sizeof(SDV[0]), NSTOL = sizeof(STOL) / sizeof(STOL[0]), NSDCHK = sizeof(SDCHK) / sizeof(SDCHK[0]);
+static const uint64_t DSPEC_TOTAL = (uint64_t) NSDV * NSDV * NSTOL * NSDCHK;
+static const char* dbl_class(double d) {
+    if (std::isnan(d)) return "nan";
+    if (std::isinf(d)) return d > 0 ? "+inf" : "-inf";
+    if (d == 0) return std::signbit(d) ? "-0" : "+0";
+    if (fabs(d) < DBL_MIN) return "subnormal";
+    if (fabs(d) == DBL_MAX) return "max";
+    return d < 0 ? "negative" : "finite";
+}
+static void sec_doubles_special(vf::Ctx& c) {
+    uint64_t i = c.idx;
+    double b = SDV[i % NSDV]; i /= NSDV; double a = SDV[i % NSDV]; i /= NSDV; double t = STOL[i % NSTOL]; i /= NSTOL;
+    const DblCheck& k = DCHK[SDCHK[i % NSDCHK]];
+    run_double_case(c, k, a, b, t);
+    std::string cls; int exp = doubles_oracle(a, b, t, cls);
+    c.count(std::string("special_tolerance_class:") + dbl_class(t));
+    if (std::isinf(t) && t > 0 && !std::isnan(a) && !std::isnan(b)) {
+        c.count("infinite_tolerance_judged");
+        if (a != b && (std::isinf(a) || std::isinf(b))) c.count(std::isinf(a) && std::isinf(b) ? "infinite_tolerance_opposite_infinities_judged" : "infinite_tolerance_infinite_vs_finite_judged");
+    }
+    bool fn = doubles_equal(a, b, t);                                   // same triple through the exported predicate
+    c.count(fn ? "doubles_equal_fn:true" : "doubles_equal_fn:false");
+    if (exp != EXP_UNJUDGED && fn != (exp == EXP_PASS)) c.count("doubles_equal_fn_differs_from_model:" + cls);   // evidence only
 }
 static double rand_double(vf::Rng& r) {
     switch (r.below(6)) {
@@ -1556,6 +1592,7 @@ int main(int argc, char** argv) {
         { "strings_table", STAB_TOTAL, STAB_TOTAL, sec_strings_table, true },
         { "compare_lattice", cmp_total, cmp_total, sec_compare_lattice, true },
         { "doubles_lattice", DLAT_TOTAL, DLAT_TOTAL, sec_doubles_lattice, true },
+        { "doubles_special", DSPEC_TOTAL, DSPEC_TOTAL, sec_doubles_special, true },
         { "int_lattice", ilat_total, ilat_total, sec_int_lattice, true },
         { "int8_exhaustive", (uint64_t) NI8 * 65536, (uint64_t) NI8 * 65536, sec_int8, true },
         { "int_random", 20000, 800000, sec_int_random, false },
